@@ -54,7 +54,7 @@ func tryReplay(verif, repo string, overlay map[string][]byte, cfg *PropConfig, o
 	defer cancel()
 	cmd := exec.CommandContext(ctx, "go", "test", "-overlay", ovFile, "-vet=off", "-count=1", "-v", "-timeout", "60s", "-run", "^"+ad.Test+"$", "./"+ad.Pkg)
 	cmd.Dir = repo
-	cmd.Env = append(os.Environ(), "GOCV_REPLAY="+inFile, "GOFLAGS=-mod=mod", "GOPROXY=off", "GOSUMDB=off", "GOTOOLCHAIN=local")
+	cmd.Env = append(os.Environ(), "GOCV_REPLAY="+inFile, "GOCV_REPLAY_OBLIGATION="+o.Name, "GOFLAGS=-mod=mod", "GOPROXY=off", "GOSUMDB=off", "GOTOOLCHAIN=local")
 	var out bytes.Buffer
 	cmd.Stdout = &out
 	cmd.Stderr = &out
